@@ -7,7 +7,7 @@ import itertools
 from ..core import Ctx
 from ..localnames import load_table
 from ..match import Fact, _atoms_with_polarity, call_name, calls, fact_of, facts_at, local_defs, names_in, resolve, single_def
-from ..model import AnalysisError, FuncInfo, chain, clone, const_value, enclosing_stmt, head, norm, parent, set_parents, strip_cast, walk_no_nested
+from ..model import NOCONST, AnalysisError, FuncInfo, ancestors, chain, clone, const_value, enclosing_stmt, head, norm, parent, set_parents, strip_cast, walk_no_nested
 from ..poly import Poly, eval_expr
 
 LEVEL = "proof"
@@ -368,6 +368,31 @@ class _Exec:
             return None
         repo = _CTX.repo
         t = recv_expr = recv_cls = None
+        inner = _INNER.get(id(self.fi.node))
+        if inner is not None and isinstance(call, ast.Call) and isinstance(call.func, ast.Name) and call.func.id == inner[0]:
+            # the wrapper of a NEW decorator calls the function it decorates: positional from the first parameter (self is passed explicitly)
+            t = inner[1]
+            a = t.node.args
+            if a.vararg or a.kwarg or any(isinstance(x, ast.Starred) for x in call.args) or any(k.arg is None for k in call.keywords):
+                raise AnalysisError(f"undecided: {t.qualname}: *args / **kwargs between the wrapper of its new decorator and the function")
+            names = [x.arg for x in a.posonlyargs + a.args]
+            if len(call.args) > len(names):
+                raise AnalysisError(f"undecided: {t.qualname}: the wrapper of its new decorator passes more arguments than it takes")
+            env = {n: x for n, x in zip(names, call.args) if not (isinstance(x, ast.Name) and x.id == n)}
+            allowed = set(names) | {x.arg for x in a.kwonlyargs}
+            for k in call.keywords:
+                if k.arg not in allowed:
+                    raise AnalysisError(f"undecided: {t.qualname}: the wrapper of its new decorator passes an unknown keyword")
+                if not (isinstance(k.value, ast.Name) and k.value.id == k.arg):
+                    env[k.arg] = k.value
+            defaults = dict(zip(names[len(names) - len(a.defaults):], a.defaults))
+            defaults.update({k.arg: d for k, d in zip(a.kwonlyargs, a.kw_defaults) if d is not None})
+            for nme in names[len(call.args):] + [x.arg for x in a.kwonlyargs]:
+                if nme not in env and nme not in {k.arg for k in call.keywords}:
+                    if nme not in defaults:
+                        raise AnalysisError(f"undecided: {t.qualname}: the wrapper of its new decorator does not pass `{nme}`")
+                    env[nme] = defaults[nme]
+            return t, env, self.recv
         if isinstance(call, ast.Attribute):
             # a property of a NEW class read on self / on a record value written as its constructor call
             if not isinstance(call.ctx, ast.Load):
@@ -684,8 +709,34 @@ class _Exec:
         return chain_
 
 
+_INNER: dict[int, tuple] = {}        # id(wrapper node) -> (name the wrapper calls the decorated function by, the function that name denotes)
+
+
 def _paths(fi: FuncInfo, loop_hook=None):
-    return _Exec(fi, loop_hook).run()
+    """
+    Return paths of fi.  A function that carries NEW decorators denotes the wrapper the decorator returns: the wrapper is executed and its
+    inner call `func(self, ...)` is expanded into the return paths of the decorated body (parameters bound to the wrapper's arguments), so a
+    guard that moved into a decorator is part of every path exactly as when it was the body's first statement.
+    """
+    layers = _decorator_layers(_CTX, fi) if _CTX is not None and fi.node.decorator_list else []
+    if not layers:
+        return _Exec(fi, loop_hook).run()
+    saved = dict(_INNER)
+    try:
+        chain_ = [w for w, _, _ in layers] + [fi]
+        for k, (w, fname, _) in enumerate(layers):
+            _INNER[id(w.node)] = (fname, chain_[k + 1])
+        w0, _, binds0 = layers[0]
+        if any(b for _, _, b in layers[1:]):
+            raise AnalysisError(f"undecided: {fi.qualname}: arguments of an inner new decorator factory are not read")
+        got = _Exec(w0, None, fi.cls, dict(binds0)).run()
+        if any(isinstance(x, ast.Call) and isinstance(x.func, ast.Name) and any(x.func.id == fn for _, fn, _ in layers)
+               for _, ret in got for x in ast.walk(ret)):
+            raise AnalysisError(f"undecided: {fi.qualname}: the call of the decorated function inside its new wrapper is not expanded")
+        return got
+    finally:
+        _INNER.clear()
+        _INNER.update(saved)
 
 
 def _simp(n):
@@ -1583,9 +1634,12 @@ class _FieldModel:
         return ((s1[0] + sign * s2[0]) % p, (s1[1] + sign * s2[1]) % p), self.mul(d1, d2, p)
 
     def attrs(self, obj, p):
-        if not isinstance(obj, _Obj) or any(k not in obj.attrs for k in SYMS):
+        if not isinstance(obj, _Obj):
             return None
-        return tuple(obj.attrs[k] for k in SYMS)
+        try:
+            return tuple(_view(self.repo, obj, k) for k in SYMS)
+        except KeyError:
+            return None
 
     # ---- checks: each returns "" (holds on the model set) or a description of the first mismatch
     def operator(self, name: str) -> str:
@@ -1764,7 +1818,7 @@ def _check_init(ctx: Ctx, cls) -> None:
                 mod = args[0]
                 full = list(args[1:]) + [DEFAULTS[k] for k in SYMS[len(args) - 1:]]
                 want = {"mod": mod, **{k: v % mod for k, v in zip(SYMS, full)}}
-                got = {k: obj.attrs.get(k) for k in want}
+                got = {k: _view(ctx.repo, obj, k, None) for k in want}
                 ok = got == want
                 if not ok:
                     break
@@ -2190,6 +2244,52 @@ def _star_args(call: ast.Call) -> list[ast.AST] | None:
     return out
 
 
+def _class_const(repo, cls, attr: str):
+    """
+    The value of a class-level constant however it is written down: a literal / simple arithmetic over other constants (engine folding),
+    else the expression evaluated by the finite-model interpreter in the class' own context - `len(("p", "g.a", ...))`,
+    `Parent.FIELDS + len(EXTRA)`, `struct.calcsize(fmt)`, `Struct(fmt).size`, `sha256().digest_size` ARE the number they evaluate to (the
+    expression has no run-time inputs: it is evaluated once at class creation).  NOCONST when neither reading gives an int / str / bytes.
+    """
+    e = cls.lookup_attr(attr)
+    if e is None:
+        return NOCONST
+    v = repo.resolve_const(cls.module, e, cls)
+    if v is not NOCONST:
+        return v
+    if any(isinstance(x, (ast.Lambda, ast.Await, ast.Yield, ast.YieldFrom, ast.NamedExpr)) for x in ast.walk(e)):
+        return NOCONST
+    try:
+        v = _Model(repo, budget=4000).attr_of(("@class", cls), attr, None)
+    except (_NoModel, _Raised, _Return, _Break, _Continue, RecursionError):
+        return NOCONST
+    except Exception:  # noqa: BLE001
+        return NOCONST
+    return v if isinstance(v, (int, str, bytes)) and not isinstance(v, bool) else NOCONST
+
+
+_NOVIEW = object()
+
+
+def _view(repo, obj, name: str, default=_NOVIEW):
+    """
+    obj.name for a model object: the stored attribute, or - when the class exposes it as a read-only @property (a view over a small state
+    holder) - what the getter returns when it is interpreted on the object.  KeyError (or `default`) when the object has no such field.
+    """
+    if isinstance(obj, _Obj):
+        if name in obj.attrs:
+            return obj.attrs[name]
+        t = obj.cls.lookup(name) if obj.cls is not None else None
+        if t is not None and "property" in t.decorator_names():
+            try:
+                return _Model(repo, budget=5000).call(t, [obj], {})
+            except (_NoModel, _Raised, _Return, _Break, _Continue):
+                pass
+    if default is _NOVIEW:
+        raise KeyError(name)
+    return default
+
+
 def _ref_unpack_all(data: bytes, limit: int = 64):
     """The integers of a byte string in the documented layout [1 byte: len(L)][L: big-endian len(P)][P: big-endian number]; None if malformed."""
     out = []
@@ -2236,7 +2336,7 @@ class _CodecModel:
 
     def _key(self, m: "_Model", cls):
         vals = [self.P, 5, 2 ** 100 + 7, 2 ** 64 + 11, 255, 2 ** 300 + 1, 256]
-        n = self.repo.resolve_const(cls.module, cls.lookup_attr("FIELDS"), cls)
+        n = _class_const(self.repo, cls, "FIELDS")
         g = m.instantiate(self.fp, [vals[0], vals[1], vals[2]], {})
         h = m.instantiate(self.fp, [vals[0], vals[3], vals[4]], {})
         init = cls.lookup("__init__")
@@ -2244,11 +2344,11 @@ class _CodecModel:
         obj = m.instantiate(cls, [vals[0], g, h, *vals[5:5 + extra]], {})
         return obj, vals[:5 + extra], n
 
-    @staticmethod
-    def _key_fields(obj) -> list | None:
+    def _key_fields(self, obj) -> list | None:
         try:
-            out = [obj.attrs["p"], obj.attrs["g"].attrs["a"], obj.attrs["g"].attrs["b"], obj.attrs["h"].attrs["a"], obj.attrs["h"].attrs["b"]]
-            out += [obj.attrs[k] for k in ("n", "t1") if k in obj.attrs]
+            v = lambda o, k: _view(self.repo, o, k)  # noqa: E731
+            out = [v(obj, "p"), v(v(obj, "g"), "a"), v(v(obj, "g"), "b"), v(v(obj, "h"), "a"), v(v(obj, "h"), "b")]
+            out += [v(obj, k) for k in ("n", "t1") if _view(self.repo, obj, k, _NOVIEW) is not _NOVIEW]
             return out
         except (KeyError, AttributeError):
             return None
@@ -2300,7 +2400,7 @@ class _CodecModel:
             written = _ref_unpack_all(data) if isinstance(data, bytes) else None
             try:
                 back = m.call(bp.lookup("unserialize"), [("@class", bp), data + m.call(self.repo.func(PS, "ipack"), [99], {}), p], {})
-                got = [back.attrs[k].attrs[c] for k in ("a", "b", "complement") for c in ("a", "b")]
+                got = [_view(self.repo, _view(self.repo, back, k), c) for k in ("a", "b", "complement") for c in ("a", "b")]
             except _Raised as r:
                 got = f"raises {r.kind}"
             except (KeyError, AttributeError):
@@ -2345,7 +2445,7 @@ def rule_codec(ctx: Ctx) -> None:  # noqa: C901, PLR0912, PLR0915
     model = _CodecModel(ctx)
     for name in ("BonehPublicKey", "BonehPrivateKey"):
         c = repo.cls(name, PS)
-        fields = repo.resolve_const(c.module, c.lookup_attr("FIELDS"), c)
+        fields = _class_const(repo, c, "FIELDS")
         try:
             n = _ipack_count(ctx, c.lookup("serialize"))
             how = ""
@@ -2775,9 +2875,26 @@ class _Model:
         return self.same_address.get(id(o), id(o))
 
     # ---- functions
-    def call(self, fi: FuncInfo, args: list, kwargs: dict | None = None):
+    def call(self, fi: FuncInfo, args: list, kwargs: dict | None = None, _raw: bool = False):
         """Interpret fi on model values (args include the receiver for methods / classmethods, not for staticmethods)."""
         kwargs = dict(kwargs or {})
+        if not _raw and fi.node.decorator_list:
+            layers = getattr(fi.node, "_c18_decorators", None)
+            if layers is None:
+                layers = [(d, _resolve_decorator_in(self.repo, fi, d)) for d in fi.node.decorator_list]
+                fi.node._c18_decorators = layers
+            if any(g is not None for _, g in layers):
+                # NEW decorators of the repository are applied (innermost first) to the undecorated function; what they return is what is called
+                fv = ("@raw", fi)
+                for d, got in reversed(layers):
+                    if got is None:
+                        continue                              # reviewed / library decorators: as in the reviewed tree (transparent for the values)
+                    dv = ("@func", got[0])
+                    if got[1] is not None:
+                        fa, fk = self._args(got[1], {}, fi)
+                        dv = self._invoke(dv, fa, fk, fi)
+                    fv = self._invoke(dv, [fv], {}, fi)
+                return self._invoke(fv, list(args), kwargs, fi)
         a = fi.node.args
         if a.vararg or a.kwarg:
             raise _NoModel(f"{fi.qualname}: *args / **kwargs")
@@ -2957,6 +3074,9 @@ class _Model:
                     raise _NoModel("del target")
             return
         if isinstance(s, (ast.FunctionDef, ast.AsyncFunctionDef)):
+            for d in s.decorator_list:
+                if not (isinstance(d, ast.Call) and (chain(d.func) or "").rsplit(".", 1)[-1] == "wraps"):
+                    raise _NoModel(f"nested function {s.name} decorated with `{norm(d)[:40]}`")
             env[s.name] = ("@closure", s, env)
             self._closure_fi = fi
             return
@@ -2967,6 +3087,10 @@ class _Model:
                 if i.optional_vars is None and isinstance(ce, ast.Call) and not ce.keywords and self._lib_name(ce.func, fi) == ("contextlib", "suppress"):
                     caught.extend(ce.args)
                     continue
+                if i.optional_vars is None and isinstance(ce, ast.Attribute) and _CTX is not None and _is_lock_expr(_CTX, _Frame(fi), ce) is True:
+                    continue                                  # a lock kept in an attribute of a state holder: no effect on the values computed
+                if i.optional_vars is None and isinstance(ce, ast.Call) and not ce.args and not ce.keywords and self._lock_only_cm(ce, fi):
+                    continue                                  # a NEW @contextmanager helper that only takes and releases locks around its yield
                 if i.optional_vars is not None or not (isinstance(ce, ast.Name) and ce.id not in env):
                     raise _NoModel(f"statement `{head(s)[:60]}`")
             try:
@@ -2983,6 +3107,35 @@ class _Model:
                     return
             return
         raise _NoModel(f"statement `{head(s)[:60]}`")
+
+    def _lock_only_cm(self, ce: ast.Call, fi) -> bool:
+        """ce calls a @contextmanager generator of the repository whose body does nothing but acquire / release locks around one bare `yield`"""
+        if _CTX is None or not isinstance(ce.func, ast.Name):
+            return False
+        try:
+            t = self.repo.resolve_name(fi.module, ce.func.id)
+        except Exception:  # noqa: BLE001
+            return False
+        if not isinstance(t, FuncInfo) or not any(d.rsplit(".", 1)[-1] == "contextmanager" for d in t.decorator_names()) or t.params():
+            return False
+        fr = _Frame(t)
+
+        def inert(stmts) -> bool:
+            for st in stmts:
+                if isinstance(st, ast.Expr) and isinstance(st.value, ast.Constant):
+                    continue
+                if isinstance(st, ast.Expr) and isinstance(st.value, ast.Yield) and st.value.value is None:
+                    continue
+                if isinstance(st, ast.Expr) and isinstance(st.value, ast.Call) and isinstance(st.value.func, ast.Attribute) and st.value.func.attr in ("acquire", "release") \
+                        and not st.value.args and not st.value.keywords and _is_lock_expr(_CTX, fr, st.value.func.value) is True:
+                    continue
+                if isinstance(st, ast.Try) and not st.handlers and not st.orelse and inert(st.body) and inert(st.finalbody):
+                    continue
+                if isinstance(st, ast.With) and all(i.optional_vars is None and _is_lock_expr(_CTX, fr, i.context_expr) is True for i in st.items) and inert(st.body):
+                    continue
+                return False
+            return True
+        return inert(t.node.body) and sum(isinstance(x, ast.Yield) for x in walk_no_nested(t.node)) == 1
 
     def _match(self, pat, v, env, fi) -> bool:  # noqa: C901, PLR0911
         """structural pattern matching on model values (value / singleton / capture / or / sequence / class patterns)"""
@@ -3152,17 +3305,11 @@ class _Model:
             return lambda *a, **k: self.call(f.cls.lookup("__call__"), [f, *a], k)
         if _is_class(f):
             return lambda *a, **k: self.instantiate(f[1], list(a), k)
+        if isinstance(f, tuple) and f and f[0] == "@raw":
+            return lambda *a, **k: self.call(f[1], list(a), k, _raw=True)
         if isinstance(f, tuple) and f and f[0] == "@closure":
-            def run_closure(*a):
-                _, node, cenv = f
-                params = [x.arg for x in node.args.posonlyargs + node.args.args]
-                if len(a) != len(params):
-                    raise _NoModel("closure arity")
-                try:
-                    self.block(node.body, {**cenv, **dict(zip(params, a))}, self._closure_fi)
-                except _Return as r:
-                    return r.value
-                return None
+            def run_closure(*a, **k):
+                return self._invoke(f, list(a), k, self._closure_fi)
             return run_closure
         return f
 
@@ -3606,6 +3753,40 @@ class _Model:
         args, kw = self._args(e, env, fi)
         return self._invoke(fv, args, kw, fi, e)
 
+    def _bind_closure(self, node, args: list, kw: dict, cenv: dict, fi) -> dict:
+        """parameters of a nested function bound to call arguments: positional, keyword, defaults, *args, **kwargs"""
+        a = node.args
+        params = [x.arg for x in a.posonlyargs + a.args]
+        kwonly = [x.arg for x in a.kwonlyargs]
+        bound: dict = {}
+        if len(args) > len(params):
+            if a.vararg is None:
+                raise _NoModel("closure arity")
+            bound[a.vararg.arg] = tuple(args[len(params):])
+        elif a.vararg is not None:
+            bound[a.vararg.arg] = ()
+        bound.update(zip(params, args))
+        extra: dict = {}
+        for k, v in kw.items():
+            if k in params or k in kwonly:
+                if k in bound:
+                    raise _NoModel("closure arity")
+                bound[k] = v
+            elif a.kwarg is not None:
+                extra[k] = v
+            else:
+                raise _NoModel("closure keyword")
+        if a.kwarg is not None:
+            bound[a.kwarg.arg] = extra
+        defaults = dict(zip(params[len(params) - len(a.defaults):], a.defaults))
+        defaults.update({k.arg: d for k, d in zip(a.kwonlyargs, a.kw_defaults) if d is not None})
+        for nm in params + kwonly:
+            if nm not in bound:
+                if nm not in defaults:
+                    raise _NoModel("closure arity")
+                bound[nm] = self.ev(defaults[nm], cenv, fi if fi is not None else self._closure_fi)
+        return bound
+
     def _invoke(self, fv, args: list, kw: dict, fi, e=None):  # noqa: C901, PLR0911
         """call a model callable (function / class / bound method / closure / lambda / callable object of the analysed code, or a library function)"""
         if isinstance(fv, tuple) and fv and fv[0] == "@func":
@@ -3614,16 +3795,18 @@ class _Model:
             return self.call(fv[1], [fv[2], *args], kw)
         if _is_class(fv):
             return self.instantiate(fv[1], args, kw)
+        if isinstance(fv, tuple) and fv and fv[0] == "@raw":
+            return self.call(fv[1], args, kw, _raw=True)
         if isinstance(fv, tuple) and fv and fv[0] == "@closure":
             _, node, cenv = fv
-            params = [x.arg for x in node.args.posonlyargs + node.args.args]
-            if len(args) != len(params) or kw:
-                raise _NoModel("closure arity")
             if any(isinstance(x, (ast.Yield, ast.YieldFrom)) for x in walk_no_nested(node, include_root_defs=False)):
                 raise _NoModel("generator closure")
-            inner = {**cenv, **dict(zip(params, args))}
+            if isinstance(node, ast.AsyncFunctionDef):
+                raise _NoModel("coroutine closure")
+            cfi = getattr(node, "_info", None) or (fi if fi is not None else self._closure_fi)      # names resolve in the module that defines the closure
+            inner = {**cenv, **self._bind_closure(node, list(args), dict(kw), cenv, cfi)}
             try:
-                self.block(node.body, inner, fi if fi is not None else self._closure_fi)
+                self.block(node.body, inner, cfi)
             except _Return as r:
                 return r.value
             return None
@@ -3706,8 +3889,12 @@ class _Frame:
         self.caller = caller
         self.call = call
 
+    is_wrapper = False                                  # the wrapper a NEW decorator returns (its inner call enters the decorated body)
+
     def depth(self) -> int:
-        return 0 if self.caller is None else 1 + self.caller.depth()
+        if self.caller is None:
+            return 0
+        return (0 if self.caller.is_wrapper else 1) + self.caller.depth()
 
 
 def _canon(frame: _Frame, e: ast.AST, extra: dict | None = None, depth: int = 6) -> ast.AST:
@@ -3745,6 +3932,11 @@ def _canon(frame: _Frame, e: ast.AST, extra: dict | None = None, depth: int = 6)
         for f in n._fields:
             if hasattr(n, f):
                 setattr(new, f, go(getattr(n, f), d, shadow))
+        if isinstance(new, ast.Subscript) and isinstance(new.value, ast.Tuple) and isinstance(getattr(n, "ctx", None), ast.Load) \
+                and not any(isinstance(x, ast.Starred) for x in new.value.elts):
+            k = _int_const(new.slice)                          # (a, b, c)[-1] is c: element of a tuple display (a wrapper's *args written out)
+            if k is not None and -len(new.value.elts) <= k < len(new.value.elts) and all(_pure_value(x) for x in new.value.elts):
+                return new.value.elts[k]
         return new
     return go(e, depth, frozenset())
 
@@ -3838,9 +4030,276 @@ def _new_callees(ctx: Ctx, frame: _Frame, call: ast.Call) -> list[FuncInfo]:
     return out
 
 
+# ---- NEW private decorators: a function decorated with `@d` / `@d(args)` (d introduced by the change under analysis) denotes the wrapper
+# ---- that d returns; the wrapper's inner call `func(self, ...)` stands for the decorated body.  Wrapper and body are analysed as a chain
+# ---- of frames (wrapper = caller, body = callee bound through the inner call), so guards / pops / facts of the wrapper dominate the body.
+_WRAP_TRANSPARENT = {"wraps", "functools.wraps"}
+
+
+def _returned_def(fn: ast.AST):
+    """the nested def a decorator (or decorator factory) returns on every return path - `return w`, `return wraps(f)(w)`, `return cast(T, w)`,
+    `return update_wrapper(w, f)` - else None"""
+    defs = {st.name: st for st in walk_no_nested(fn) if isinstance(st, (ast.FunctionDef, ast.AsyncFunctionDef)) and st is not fn}
+    found = None
+    nret = 0
+    for r in walk_no_nested(fn):
+        if not isinstance(r, ast.Return):
+            continue
+        nret += 1
+        v = strip_cast(r.value) if r.value is not None else None
+        if isinstance(v, ast.Call) and isinstance(v.func, ast.Call) and (chain(v.func.func) or "").rsplit(".", 1)[-1] == "wraps" and len(v.args) == 1:
+            v = strip_cast(v.args[0])
+        elif isinstance(v, ast.Call) and (chain(v.func) or "").rsplit(".", 1)[-1] == "update_wrapper" and v.args:
+            v = strip_cast(v.args[0])
+        if not isinstance(v, ast.Name) or v.id not in defs or len(local_defs_by_node(fn, v.id)) != 1:
+            return None
+        if found is not None and found is not defs[v.id]:
+            return None
+        found = defs[v.id]
+    return found if nret else None
+
+
+def local_defs_by_node(fn: ast.AST, name: str) -> list:
+    """binding sites of `name` in fn's own scope: nested defs of that name and stores to it"""
+    out = []
+    for x in walk_no_nested(fn):
+        if x is fn:
+            continue
+        if isinstance(x, (ast.FunctionDef, ast.AsyncFunctionDef, ast.ClassDef)) and x.name == name:
+            out.append(x)
+        elif isinstance(x, ast.Name) and x.id == name and isinstance(x.ctx, (ast.Store, ast.Del)):
+            out.append(x)
+    return out
+
+
+def _resolve_decorator(ctx: Ctx, fi: FuncInfo, d: ast.AST):
+    return _resolve_decorator_in(ctx.repo, fi, d)
+
+
+def _resolve_decorator_in(repo, fi: FuncInfo, d: ast.AST):
+    """(decorator function, factory call | None) for a NEW decorator of the repository; None for reviewed / library decorators"""
+    call = d if isinstance(d, ast.Call) else None
+    f = d.func if call is not None else d
+    target = None
+    if isinstance(f, ast.Name):
+        try:
+            r = repo.resolve_name(fi.module, f.id)
+        except Exception:  # noqa: BLE001
+            r = None
+        if isinstance(r, FuncInfo):
+            target = r
+        elif fi.cls is not None and f.id in fi.cls.methods:
+            target = fi.cls.methods[f.id]                        # a plain function of the class body used as a decorator further down
+    elif isinstance(f, ast.Attribute):
+        named = [g for g in repo.all_functions() if g.name == f.attr and _is_new(g) and "." not in g.qualname.replace(f"{g.cls.name}." if g.cls else "", "", 1)]
+        if len(named) == 1:
+            target = named[0]
+    if target is None or not _is_new(target):
+        return None
+    return target, call
+
+
+def _decorator_layers(ctx: Ctx, fi: FuncInfo) -> list:
+    """[(wrapper FuncInfo, name the wrapper calls the decorated function by, {factory parameter: argument expression})], outermost first,
+    for the NEW decorators of fi.  A new decorator that cannot be read is undecided, never skipped."""
+    out = []
+    for d in fi.node.decorator_list:
+        got = _resolve_decorator(ctx, fi, d)
+        if got is None:
+            continue
+        dec, call = got
+        node = dec.node
+        binds: dict[str, ast.AST] = {}
+        if call is not None:
+            a = node.args
+            names = [x.arg for x in a.posonlyargs + a.args]
+            if dec.cls is not None and "staticmethod" not in dec.decorator_names() and names and names[0] in ("self", "cls"):
+                names = names[1:]
+            if a.vararg or a.kwarg or len(call.args) > len(names) or any(isinstance(x, ast.Starred) for x in call.args) or any(k.arg is None for k in call.keywords):
+                raise AnalysisError(f"undecided: {fi.qualname}: arguments of the new decorator `{norm(d)[:60]}` are not read")
+            binds = dict(zip(names, call.args))
+            binds.update({k.arg: k.value for k in call.keywords})
+            defaults = dict(zip(names[len(names) - len(a.defaults):], a.defaults))
+            for nme in names:
+                if nme not in binds and nme in defaults:
+                    binds[nme] = defaults[nme]
+            node = _returned_def(node)
+            if node is None:
+                raise AnalysisError(f"undecided: {fi.qualname}: the new decorator factory `{norm(d)[:60]}` does not return one nested decorator")
+        ps = [x.arg for x in node.args.posonlyargs + node.args.args]
+        if dec.cls is not None and node is dec.node and "staticmethod" not in dec.decorator_names() and len(ps) == 2 and ps[0] in ("self", "cls"):
+            ps = ps[1:]
+        w = _returned_def(node)
+        if len(ps) != 1 or w is None or not hasattr(w, "_info"):
+            raise AnalysisError(f"undecided: {fi.qualname}: the new decorator `{norm(d)[:60]}` is not a function that returns one wrapper of its argument")
+        if any(_resolve_decorator(ctx, w._info, x) is not None for x in w.decorator_list):
+            raise AnalysisError(f"undecided: {fi.qualname}: the wrapper of the new decorator `{norm(d)[:60]}` is itself decorated")
+        out.append((w._info, ps[0], binds))
+    return out
+
+
+def _bind_wrapper(ctx: Ctx, caller: _Frame | None, call: ast.Call | None, w: FuncInfo, binds: dict, method_like: bool, target: FuncInfo | None = None) -> _Frame | None:
+    """frame of a decorator's wrapper: the anchor itself (no caller) or bound to the call site that reaches the decorated function"""
+    a = w.node.args
+    names = [x.arg for x in a.posonlyargs + a.args]
+    frame_binds = {k: clone(v) for k, v in binds.items()}        # factory arguments are written in the decorated function's module: constants
+    if caller is None or call is None:
+        if a.vararg is not None and target is not None and not a.kwonlyargs:
+            # an anchor is called positionally by its dispatcher: *args are the decorated function's own positional parameters that follow
+            ta = target.node.args
+            tnames = [x.arg for x in ta.posonlyargs + ta.args]
+            if not ta.vararg and len(tnames) >= len(names):
+                frame_binds[a.vararg.arg] = ast.Tuple(elts=[ast.Name(id=t, ctx=ast.Load()) for t in tnames[len(names):]], ctx=ast.Load())
+        fr = _Frame(w, frame_binds)
+        fr.is_wrapper = True
+        fr.rest, fr.restkw = None, None
+        return fr
+    raw: dict[str, ast.AST] = {}
+    rest: list[ast.AST] = []
+    restkw: dict[str, ast.AST] = {}
+    idx = 0
+    if method_like and names:
+        callee = getattr(w, "_c18_callee_expr", None)
+        callee = callee if callee is not None else call.func
+        if isinstance(callee, ast.Attribute):
+            raw[names[0]] = callee.value
+            idx = 1
+    if any(isinstance(x, ast.Starred) for x in call.args) or any(k.arg is None for k in call.keywords):
+        return None
+    for x in call.args:
+        if idx < len(names):
+            raw[names[idx]] = x
+            idx += 1
+        elif a.vararg:
+            rest.append(_canon(caller, x))
+        else:
+            return None
+    allowed = set(names) | {x.arg for x in a.kwonlyargs}
+    for k in call.keywords:
+        if k.arg in allowed:
+            raw[k.arg] = k.value
+        elif a.kwarg:
+            restkw[k.arg] = _canon(caller, k.value)
+        else:
+            return None
+    bind = {k: _canon(caller, v) for k, v in raw.items()}
+    bind.update(frame_binds)
+    if a.vararg is not None:
+        bind[a.vararg.arg] = ast.Tuple(elts=list(rest), ctx=ast.Load())
+    fr = _Frame(w, bind, raw, caller, call)
+    fr.is_wrapper = True
+    fr.rest, fr.restkw = rest, restkw
+    return fr
+
+
+def _bind_inner(ctx: Ctx, wframe: _Frame, call: ast.Call, target: FuncInfo) -> _Frame | None:
+    """frame of the decorated body (or of the next wrapper) for the wrapper's inner call `func(self, a, *args, **kwargs)`: positional from
+    the first parameter; the wrapper's own *args / **kwargs pass on what its caller gave (unknown for an anchor: those parameters keep their names)"""
+    a = target.node.args
+    wa = wframe.fi.node.args
+    names = [x.arg for x in a.posonlyargs + a.args]
+    raw: dict[str, ast.AST] = {}
+    bind: dict[str, ast.AST] = {}
+    idx = 0
+    rest = getattr(wframe, "rest", None)
+    restkw = getattr(wframe, "restkw", None)
+    open_tail = False
+    for x in call.args:
+        if open_tail:
+            return None
+        if isinstance(x, ast.Starred):
+            if not (isinstance(x.value, ast.Name) and wa.vararg is not None and x.value.id == wa.vararg.arg):
+                return None
+            if rest is None:
+                open_tail = True                                  # anchor wrapper: the remaining parameters are the handler's own
+                continue
+            for r in rest:
+                if idx >= len(names):
+                    return None
+                bind[names[idx]] = r
+                idx += 1
+            continue
+        if idx >= len(names):
+            if a.vararg:
+                continue
+            return None
+        raw[names[idx]] = x
+        idx += 1
+    allowed = set(names) | {x.arg for x in a.kwonlyargs}
+    for k in call.keywords:
+        if k.arg is None:
+            if not (isinstance(k.value, ast.Name) and wa.kwarg is not None and k.value.id == wa.kwarg.arg):
+                return None
+            for kk, vv in (restkw or {}).items():
+                if kk in allowed:
+                    bind[kk] = vv
+            continue
+        if k.arg not in allowed:
+            if a.kwarg:
+                continue
+            return None
+        raw[k.arg] = k.value
+    bind.update({k: _canon(wframe, v) for k, v in raw.items()})
+    return _Frame(target, bind, raw, wframe, call)
+
+
+def _entry_frames(ctx: Ctx, target: FuncInfo, caller: _Frame | None, call: ast.Call | None) -> list[_Frame]:
+    """The frame(s) through which `target` is entered: its own frame, or - when it carries NEW decorators - the chain wrapper(s) -> body."""
+    layers = _decorator_layers(ctx, target)
+    if not layers:
+        if caller is None or call is None:
+            return [_Frame(target)]
+        nf = _bind_call(ctx, caller, call, target)
+        return [nf] if nf is not None else []
+    method_like = target.cls is not None and "staticmethod" not in target.decorator_names()
+    out: list[_Frame] = []
+
+    def enter(level: int, cur_caller, cur_call, via_site: bool) -> None:
+        if level == len(layers):
+            body = _bind_inner(ctx, cur_caller, cur_call, target)
+            if body is None:
+                raise AnalysisError(f"undecided: {target.qualname}: the call `{norm(cur_call)[:60]}` of the decorated function inside its new wrapper is not read")
+            out.append(body)
+            return
+        w, fname, binds = layers[level]
+        if via_site:
+            if cur_caller is not None:
+                w._c18_callee_expr = getattr(target, "_c18_callee_expr", None)
+            fr = _bind_wrapper(ctx, cur_caller, cur_call, w, binds, method_like, target)
+        else:
+            fr = _bind_inner(ctx, cur_caller, cur_call, w)
+            if fr is not None:
+                fr.bind.update({k: clone(v) for k, v in binds.items()})
+                fr.is_wrapper = True
+                fr.rest, fr.restkw = getattr(cur_caller, "rest", None), getattr(cur_caller, "restkw", None)
+        if fr is None:
+            raise AnalysisError(f"undecided: {target.qualname}: the arguments that reach the wrapper of its new decorator are not read")
+        out.append(fr)
+        inner = [c for c in walk_no_nested(w.node) if isinstance(c, ast.Call) and isinstance(c.func, ast.Name) and c.func.id == fname]
+        others = [n for n in walk_no_nested(w.node) if isinstance(n, ast.Name) and n.id == fname and not any(c.func is n for c in inner)
+                  and not (isinstance(parent(n), ast.Call) and (chain(parent(n).func) or "").rsplit(".", 1)[-1] in ("wraps", "update_wrapper", "iscoroutinefunction"))
+                  and not (isinstance(parent(n), ast.Attribute) and parent(n).attr in ("__name__", "__qualname__", "__doc__"))]
+        if others or len(inner) > 4:
+            raise AnalysisError(f"undecided: {target.qualname}: the wrapper of its new decorator uses the decorated function other than by calling it")
+        for c in inner:
+            enter(level + 1, fr, c, False)
+    enter(0, caller, call, True)
+    return out
+
+
+def _root_params(frames: list[_Frame], root: FuncInfo) -> list[str]:
+    """parameter names of the anchor as its callers see them: the outermost new wrapper's when it spells them out, else the function's own"""
+    f0 = frames[0].fi if frames else root
+    a = f0.node.args
+    if f0.node is not root.node and not a.vararg and not a.kwarg:
+        return [x.arg for x in a.posonlyargs + a.args]
+    return root.params()
+
+
 def _frames(ctx: Ctx, root: FuncInfo, max_depth: int = 3) -> list[_Frame]:
-    """The anchor's frame and the frames of every NEW helper reachable from it (each call site gives its own frame)."""
-    out = [_Frame(root)]
+    """The anchor's frame and the frames of every NEW helper reachable from it (each call site gives its own frame); a NEW decorator on the
+    anchor or on a helper contributes its wrapper as the frame that calls the decorated body."""
+    out = _entry_frames(ctx, root, None, None)
     i = 0
     while i < len(out):
         fr = out[i]
@@ -3850,9 +4309,9 @@ def _frames(ctx: Ctx, root: FuncInfo, max_depth: int = 3) -> list[_Frame]:
         for c in walk_no_nested(fr.fi.node):
             if isinstance(c, ast.Call):
                 for t in _new_callees(ctx, fr, c):
-                    nf = _bind_call(ctx, fr, c, t)
-                    if nf is not None and len(out) < 40:
-                        out.append(nf)
+                    for nf in _entry_frames(ctx, t, fr, c):
+                        if len(out) < 40:
+                            out.append(nf)
     return out
 
 
@@ -4458,6 +4917,172 @@ def _check_decode_stateless(ctx: Ctx) -> None:
               facts=facts)
 
 
+_LOCK_CTORS = {"Lock", "RLock"}
+
+
+def _is_lock_expr(ctx: Ctx, frame: _Frame, e: ast.AST, _depth: int = 0):
+    """True: e names a threading.Lock / RLock object (module-level constant, class or instance attribute); False: something else; None: not known"""
+    e = strip_cast(e)
+    if isinstance(e, ast.Name) and e.id not in frame.fi.params():
+        sd = single_def(frame.fi, e.id)
+        if sd is not None and sd[1] is None:
+            return _is_lock_expr(ctx, frame, sd[0])
+        if local_defs(frame.fi, e.id):
+            return None
+        try:
+            r = ctx.repo.resolve_name(frame.fi.module, e.id)
+        except Exception:  # noqa: BLE001
+            return None
+        if isinstance(r, tuple) and r and r[0] == "const":
+            v = strip_cast(r[2])
+            if isinstance(v, ast.Call):
+                return (chain(v.func) or "").rsplit(".", 1)[-1] in _LOCK_CTORS and not v.args and not v.keywords
+            return False if isinstance(v, ast.Constant) else None
+        return None
+    if isinstance(e, ast.Attribute):
+        found = None
+        for ci in ctx.repo.all_classes():
+            vals = []
+            if e.attr in ci.attrs:
+                vals.append(ci.attrs[e.attr])
+            for m in ci.methods.values():
+                for st in walk_no_nested(m.node):
+                    if isinstance(st, (ast.Assign, ast.AnnAssign)) and st.value is not None:
+                        tg = st.targets if isinstance(st, ast.Assign) else [st.target]
+                        if any(isinstance(t, ast.Attribute) and t.attr == e.attr and isinstance(t.value, ast.Name) and t.value.id == "self" for t in tg):
+                            vals.append(st.value)
+            getter = ci.methods.get(e.attr)
+            if getter is not None and "property" in getter.decorator_names() and _depth < 3:
+                r = _single_return(getter)
+                r = strip_cast(r) if r is not None else None
+                back = _is_lock_expr(ctx, frame, r, _depth + 1) if isinstance(r, ast.Attribute) and isinstance(r.value, ast.Name) and r.value.id == "self" else None
+                if found is not None and found != back or back is None:
+                    return None
+                found = back
+            for v in vals:
+                v = strip_cast(v)
+                is_l = isinstance(v, ast.Call) and (chain(v.func) or "").rsplit(".", 1)[-1] in _LOCK_CTORS and not v.args and not v.keywords
+                if found is not None and found != is_l:
+                    return None
+                found = is_l
+        return found
+    return None
+
+
+def _check_count_atomic(ctx: Ctx) -> None:
+    """
+    bonehexact.attestation.process_challenge_response(relativity_map, response) counts one answer: `relativity_map[response] += 1` reads the
+    count and writes it back.  The relativity map of one verification is shared by everything that feeds answers into it, and the module
+    provides multithread_update_lock for exactly this update: every statement that updates the map (in the function, in a NEW helper it
+    calls, or in the body behind a NEW decorator) must execute while a threading.Lock / RLock is held - inside `with lock:`, between
+    lock.acquire() and lock.release() on every path, inside a wrapper that holds it around the call, or (closed set of callers) because every
+    call of the function in the repository is made with the lock held.  Without it two answers processed by different threads can both
+    read the old count and one of them is lost: the counted profile falls short of the true value's profile.
+    """
+    ap = "ipv8/attestation/wallet/bonehexact/attestation.py"
+    fi = ctx.repo.func(ap, "process_challenge_response")
+    frames = _frames(ctx, fi)
+    params = _root_params(frames, fi)
+    if len(params) != 2:
+        raise AnalysisError(f"anchor-lost: {fi.qualname} no longer takes (relativity_map, response)")
+    mp = params[0]
+    sites = []
+    for fr in frames:
+        for n in walk_no_nested(fr.fi.node):
+            tgts = []
+            if isinstance(n, ast.AugAssign):
+                tgts = [n.target]
+            elif isinstance(n, ast.Assign):
+                tgts = list(n.targets)
+            elif isinstance(n, ast.AnnAssign) and n.value is not None:
+                tgts = [n.target]
+            elif isinstance(n, ast.Delete):
+                tgts = list(n.targets)
+            elif isinstance(n, ast.Call) and isinstance(n.func, ast.Attribute) and n.func.attr in ("update", "__setitem__", "setdefault", "pop", "clear", "subtract", "popitem"):
+                if _ctext(fr, n.func.value) == mp:
+                    sites.append((fr, n))
+                continue
+            elif isinstance(n, ast.Call) and (chain(n.func) or "").rsplit(".", 1)[-1] in ("setitem", "delitem") and n.args and _ctext(fr, n.args[0]) == mp:
+                sites.append((fr, n))
+                continue
+            flat = []
+            for t in tgts:
+                flat.extend(t.elts if isinstance(t, (ast.Tuple, ast.List)) else [t])
+            if any(isinstance(t, ast.Subscript) and _ctext(fr, t.value) == mp for t in flat):
+                sites.append((fr, n))
+    ctx.anchor(sites, "bonehexact.attestation.process_challenge_response updates the relativity map it is given")
+    unknown: list[str] = []
+
+    def held(fr: _Frame, node: ast.AST, depth: int = 0) -> bool:
+        for anc in [node, *ancestors(node)]:
+            if anc is fr.fi.node:
+                break
+            if isinstance(anc, (ast.FunctionDef, ast.AsyncFunctionDef, ast.Lambda)):
+                return False                                  # a nested function: runs whenever it is called, not under the enclosing `with`
+            if isinstance(anc, (ast.With, ast.AsyncWith)):
+                for it in anc.items:
+                    ce = strip_cast(it.context_expr)
+                    if isinstance(ce, ast.Call) and isinstance(anc, ast.With) and depth < 3:
+                        # `with helper():` where helper is a NEW @contextmanager generator: its body up to the yield runs before the block, so the
+                        # block runs under whatever lock is held at (every) yield
+                        cms = [t for t in _new_callees(ctx, fr, ce) if any(d.rsplit(".", 1)[-1] == "contextmanager" for d in t.decorator_names())]
+                        if len(cms) == 1:
+                            cf = _bind_call(ctx, fr, ce, cms[0])
+                            ys = [y for y in walk_no_nested(cms[0].node) if isinstance(y, ast.Yield)]
+                            if cf is not None and ys and all(held(_Frame(cms[0], cf.bind, cf.raw), y, 3) for y in ys):
+                                return True
+                            continue
+                    k = _is_lock_expr(ctx, fr, it.context_expr)
+                    if k is True and isinstance(anc, ast.With):
+                        return True
+                    if k is None:
+                        unknown.append(f"`with {norm(it.context_expr)[:40]}:` in {fr.fi.qualname}")
+        cfg = ctx.cfg(fr.fi)
+        acq, rel = [], []
+        for c in calls(fr.fi):
+            if isinstance(c.func, ast.Attribute) and c.func.attr in ("acquire", "release"):
+                k = _is_lock_expr(ctx, fr, c.func.value)
+                if k is None:
+                    unknown.append(f"`{norm(c)[:40]}` in {fr.fi.qualname}")
+                if k is True and c.func.attr == "release":
+                    rel.extend(cfg.nodes_for(c))
+                elif k is True and not c.args and not c.keywords:
+                    acq.extend(cfg.nodes_for(c))
+        here = [n for n in cfg.nodes_for(node) if cfg.reachable(n)]
+        if acq and here:
+            after_release = cfg.reach([v for r in rel for v, lab in r.succ if lab != "exc"], cut_nodes=acq) if rel else set()
+            if all(cfg.must_complete(n, acq) and n not in after_release for n in here):
+                return True
+        if fr.caller is not None and fr.call is not None:
+            return held(fr.caller, fr.call, depth)
+        if depth == 0:
+            # closed set of callers: every call of the function in the repository is made with the lock held
+            outer = []
+            for site in ctx.repo.callers_of_name(fr.fi.name):
+                caller, call = site[-2], site[-1]
+                if caller is None:
+                    return False
+                try:
+                    targets = ctx.repo.resolve_call(caller, call)
+                except Exception:  # noqa: BLE001
+                    targets = []
+                if any(t.node is fi.node for t in targets):
+                    outer.append((caller, call))
+            if outer and fr.fi.node is fi.node and all(held(_Frame(c), k, 1) for c, k in outer):
+                return True
+        return False
+
+    for fr, n in sites:
+        ok = held(fr, n)
+        if not ok and unknown:
+            raise AnalysisError(f"undecided: {fi.qualname}: the relativity map is updated under {unknown[0]}, which is not known to be a lock")
+        ctx.check(ok, "protocol-shape", fi, n, "the answer count in the relativity map is updated while a lock is held",
+                  f"{fr.fi.qualname}: `{norm(n)[:60]}` updates the relativity map without holding a lock (not inside `with lock:`, not between acquire() and "
+                  "release() on every path, no wrapper or caller holds one): the update reads the count and writes it back, so two answers of one verification that are "
+                  "processed by different threads can both read the old count and one honest answer is lost - the verifier no longer reconstructs the bit-pair profile "
+                  "of the true value, which then scores below 1-2^-n after all n answers")
+
+
 def rule_protocol_shape(ctx: Ctx) -> None:
     """
     Two necessary conditions of the protocol clauses that ARE visible in code shape (they do not make the proofs sound):
@@ -4469,6 +5094,7 @@ def rule_protocol_shape(ctx: Ctx) -> None:
     pb = repo.method("PengBaoRangeAlgorithm", "certainty", "ipv8/attestation/wallet/pengbaorange/algorithm.py")
     _check_range_certainty(ctx, pb)
     _check_answer_counted(ctx)
+    _check_count_atomic(ctx)
     _check_decode_stateless(ctx)
     oc = repo.method("AttestationCommunity", "on_attestation_chunk", "ipv8/attestation/wallet/community.py")
     _check_request_selection(ctx, oc)
@@ -4538,13 +5164,14 @@ def _check_request_selection(ctx: Ctx, oc: FuncInfo) -> None:
     that expression, guarded by the comparison (if / continue / comprehension filter / filter() / conditional expression, in
     the caller or the helper), or drawn from a collection that was filtered by it.
     """
-    params = oc.params()
+    oc_frames = _frames(ctx, oc)
+    params = _root_params(oc_frames, oc)
     if len(params) < 4:
         raise AnalysisError(f"anchor-lost: {oc.qualname} no longer takes (peer, dist, payload)")
     peer_p, dist_p = params[1], params[2]
     want = f"str({dist_p}.global_time).encode()"
     sites = []
-    for fr in _frames(ctx, oc):
+    for fr in oc_frames:
         for c in walk_no_nested(fr.fi.node):
             if isinstance(c, ast.Call) and (chain(c.func) or "").rsplit(".", 1)[-1] in ("id_from_address", "id_from_hash") and len(c.args) == 2 and not c.keywords:
                 pre = _canon(fr, c.args[0])
@@ -4816,9 +5443,10 @@ def rule_response_consumed(ctx: Ctx) -> None:
     _use(ctx)
     repo = ctx.repo
     fi = repo.method("AttestationCommunity", "on_challenge_response", "ipv8/attestation/wallet/community.py")
-    payload = fi.params()[-1]
-    want_hash = f"{payload}.challenge_hash"
     frames = _frames(ctx, fi)
+    params = _root_params(frames, fi)                       # (self, peer, dist, payload) as the dispatcher passes them
+    payload = params[3] if len(params) > 3 else params[-1]
+    want_hash = f"{payload}.challenge_hash"
 
     def is_pending_id(fr: _Frame, call: ast.Call) -> bool:
         canon_args = [_canon(fr, a.value if isinstance(a, ast.Starred) else a) for a in call.args]
@@ -4898,6 +5526,8 @@ def rule_response_consumed(ctx: Ctx) -> None:
     def consumed_at(fr: _Frame, node: ast.AST) -> bool:
         cfg = ctx.cfg(fr.fi)
         always, cond = pop_nodes(fr)
+        if isinstance(node, ast.Call) and any(isinstance(c, ast.Call) and c is not node and is_pop(fr, c) and _argument_of(node, c) for c in ast.walk(node)):
+            return True                                       # f(..., pop(id)): the arguments are evaluated (the entry popped) before f is entered
         usable = [n for ns, name, c in cond if result_known(fr, node, name, c) for n in ns]
         ok = True
         for n in cfg.nodes_for(node):
@@ -4930,13 +5560,47 @@ def rule_response_consumed(ctx: Ctx) -> None:
         return None
     uses = [(fr, c) for fr in frames for c in calls(fr.fi) if feeds(fr, c) is not None]
     ctx.anchor(uses, "on_challenge_response feeds the response into process_challenge_response / process_honesty_challenge")
+    def unread_pops() -> list[str]:
+        """request_cache.pop calls whose identifier names no cache prefix the rule can read (neither 'proving-hash' nor another constant)"""
+        out = []
+        for fr in frames:
+            for c in walk_no_nested(fr.fi.node):
+                if isinstance(c, ast.Call) and _ctext(fr, c.func).endswith("request_cache.pop") and not is_pending_id(fr, c):
+                    canon_args = [_canon(fr, a.value if isinstance(a, ast.Starred) else a) for a in c.args]
+                    named = any(isinstance(x, ast.Constant) and isinstance(x.value, str) for a in canon_args for x in ast.walk(a))
+                    if not named:
+                        named = any(isinstance(_const_eval(ctx, fr.fi, x), str) for a in canon_args for x in ast.walk(a)
+                                    if isinstance(x, (ast.Name, ast.Attribute)) and isinstance(getattr(x, "ctx", None), ast.Load))
+                    if not named:
+                        out.append(f"{fr.fi.qualname}: `{norm(c)[:60]}`")
+        return out
+
     for fr, u in uses:
         ok = consumed_at(fr, u)
+        if not ok and unread_pops():
+            raise AnalysisError(f"undecided: {fi.qualname}: {unread_pops()[0]} pops a cache entry whose identifier is not read; it may be the pending challenge")
         ctx.check(ok, "response-consumed", fi, enclosing_stmt(u), f"{feeds(fr, u)}: the pending challenge is popped on every path that processes the response",
                   f"on_challenge_response hands the response to {feeds(fr, u)} on a path that does not pop the PendingChallengeCache entry "
                   f"('proving-hash', {payload}.challenge_hash) - not before it and not on every way out (early return): a duplicated / replayed response is "
                   "counted again in the relativity map, the bit-pair profile over-counts and the honest prover's true value scores 0")
     _check_answered_challenge(ctx, fi, frames, want_hash)
+
+
+def _argument_of(call: ast.Call, inner: ast.AST) -> bool:
+    """inner is evaluated unconditionally while the arguments of `call` are evaluated (no short-circuit / lazy position in between)"""
+    cur, p = inner, parent(inner)
+    while p is not None and cur is not call:
+        if isinstance(p, ast.Call):
+            if cur is p.func and p is call:
+                return False
+        elif isinstance(p, ast.keyword):
+            pass
+        elif not isinstance(p, (ast.Starred, ast.Attribute, ast.Subscript, ast.Tuple, ast.List, ast.BinOp, ast.UnaryOp, ast.Compare)):
+            return False
+        if isinstance(p, ast.Compare) and len(p.ops) > 1 and cur is not p.left and cur is not p.comparators[0]:
+            return False
+        cur, p = p, parent(p)
+    return cur is call
 
 
 def _check_answered_challenge(ctx: Ctx, fi: FuncInfo, frames: list, want_hash: str) -> None:  # noqa: C901, PLR0912, PLR0915
@@ -4968,6 +5632,65 @@ def _check_answered_challenge(ctx: Ctx, fi: FuncInfo, frames: list, want_hash: s
     def elem_selected(fr: _Frame, x: ast.AST, site: ast.AST) -> bool:
         return _holds_eq(ctx, fr, x, site, sha, want_hash)
 
+    _MUTATORS = ("remove", "pop", "popleft", "clear", "insert", "append", "extend", "sort", "reverse")
+
+    def stable_between(fr: _Frame, st: ast.AST, site: ast.AST, names: set) -> bool:
+        """no path from statement st to site (that does not run st again) stores one of `names` or changes the backlog"""
+        cfg = ctx.cfg(fr.fi)
+        an, sn = list(cfg.nodes_for(st)), list(cfg.nodes_for(site))
+        if not an or not sn:
+            return False
+        muts = []
+        for x in walk_no_nested(fr.fi.node):
+            if isinstance(x, ast.Name) and isinstance(x.ctx, (ast.Store, ast.Del)) and x.id in names:
+                muts.extend(cfg.nodes_for(x))
+            elif isinstance(x, ast.Call) and isinstance(x.func, ast.Attribute) and x.func.attr in _MUTATORS and is_backlog(fr, x.func.value):
+                muts.extend(cfg.nodes_for(x))
+            elif isinstance(x, ast.Delete) and any(isinstance(t, ast.Subscript) and is_backlog(fr, t.value) for t in x.targets):
+                muts.extend(cfg.nodes_for(x))
+            elif isinstance(x, (ast.Assign, ast.AugAssign, ast.AnnAssign)):
+                tg = x.targets if isinstance(x, ast.Assign) else [x.target]
+                if any(isinstance(t, ast.Subscript) and is_backlog(fr, t.value) for t in tg) or any(isinstance(t, ast.Attribute) and t.attr == "challenges" for t in tg):
+                    muts.extend(cfg.nodes_for(x))
+        muts = [m for m in muts if m not in sn and m not in an]
+        after = cfg.reach([v for d in an for v, lab in d.succ if lab != "exc"], cut_nodes=sn)
+        for m in muts:
+            if m in after and set(sn) & cfg.reach([v for v, _ in m.succ], cut_nodes=an):
+                return False
+        return True
+
+    def position_fact(fr: _Frame, i: ast.Name, site: ast.AST) -> bool:
+        """
+        `x = backlog[i]` ... `if sha1(x).digest() == hash:` ... removal at position i: the dominating comparison is about the local that was
+        read from position i (the one definition of x that reaches the comparison), and neither i nor the backlog changed since that read.
+        """
+        try:
+            raw = list(facts_at(ctx.cfg(fr.fi), site))
+        except AnalysisError:
+            return False
+        for f in raw:
+            if not (f.op == "eq" and f.pos and f.right is not None):
+                continue
+            for a, b in ((f.left, f.right), (f.right, f.left)):
+                a = strip_cast(a)
+                if _ctext(fr, b) != want_hash or not (isinstance(a, ast.Call) and isinstance(a.func, ast.Attribute) and a.func.attr == "digest" and not a.args):
+                    continue
+                h = strip_cast(a.func.value)
+                if not (isinstance(h, ast.Call) and chain(h.func) == "sha1" and len(h.args) == 1 and not h.keywords):
+                    continue
+                n = strip_cast(h.args[0])
+                if not isinstance(n, ast.Name) or parent(n) is None or n.id in fr.fi.params():
+                    continue
+                defs = _reaching(fr.fi, n, local_defs(fr.fi, n.id))
+                if len(defs) != 1 or defs[0][1] is None or defs[0][2] is not None or isinstance(defs[0][0], (ast.For, ast.AsyncFor)):
+                    continue
+                st, val, _ = defs[0]
+                val = strip_cast(val)
+                if isinstance(val, ast.Subscript) and isinstance(strip_cast(val.slice), ast.Name) and strip_cast(val.slice).id == i.id and is_backlog(fr, val.value) \
+                        and stable_between(fr, st, site, {i.id}):
+                    return True
+        return False
+
     def index_selected(fr: _Frame, i: ast.AST, site: ast.AST):
         """True / False / None (undecided) for a positional removal at index expression i"""
         i = strip_cast(i)
@@ -4981,6 +5704,8 @@ def _check_answered_challenge(ctx: Ctx, fi: FuncInfo, frames: list, want_hash: s
                         return True
                     if f.op == "eq" and f.pos and f.right is not None and {norm(f.left), norm(f.right)} == {sha(f"{t}[{i.id}]"), want_hash}:
                         return True
+            if position_fact(fr, i, site):
+                return True
             b = _binding_of(fr.fi, i)
             if b is not None and b[0] in ("for", "comp"):
                 tgt, it = b[1].target, strip_cast(b[1].iter)
@@ -5195,6 +5920,11 @@ WITNESSES = [
      "new": "        if unpacked in (0, 1, 2):\n            process_challenge_response(aggregate, unpacked)\n        return aggregate\n"},
     {"name": "an answer is counted twice", "file": "ipv8/attestation/wallet/bonehexact/attestation.py", "rule": "protocol-shape",
      "old": "    relativity_map[response] += 1\n", "new": "    relativity_map[response] += 2\n"},
+    {"name": "the answer count is updated without the update lock", "file": "ipv8/attestation/wallet/bonehexact/attestation.py", "rule": "protocol-shape",
+     "old": "    multithread_update_lock.acquire()\n    relativity_map[response] += 1\n    multithread_update_lock.release()\n", "new": "    relativity_map[response] += 1\n"},
+    {"name": "the update lock is released before the answer is counted", "file": "ipv8/attestation/wallet/bonehexact/attestation.py", "rule": "protocol-shape",
+     "old": "    multithread_update_lock.acquire()\n    relativity_map[response] += 1\n    multithread_update_lock.release()\n",
+     "new": "    multithread_update_lock.acquire()\n    multithread_update_lock.release()\n    relativity_map[response] += 1\n"},
     {"name": "decode memoises g^t1 per id(privkey)", "file": "ipv8/attestation/wallet/primitives/boneh.py", "rule": "protocol-shape",
      "old": "def decode(privkey: BonehPrivateKey, msgspace: list[int], c: FP2Value) -> int | None:\n    \"\"\"\n    Decode a ciphertext c given a private key and the possible source messages.\n"
             "    \"\"\"\n    d = c.intpow(privkey.t1)\n    t = privkey.g.intpow(privkey.t1)\n",
